@@ -23,7 +23,8 @@ func init() {
 	})
 }
 
-func runC16(r *Run) {
+// c16Aliases defines the access paths of InsertChain used by the C16 rows (and the C02 subset).
+func c16Aliases(r *Run) string {
 	ic := "protocol.(chainBridge).InsertChain"
 	r.Alias("$ins", "recv.chain.AcquireInsert(fmt.Sprintf(\"Insert momentums in chain-bridge. Start-identifier:%v End-identifier:%v\",list(a0[0].Momentum.Identifier(),a0[(len(a0)-1)].Momentum.Identifier())))")
 	r.Alias("$st", "recv.chain.GetFrontierMomentumStore()")
@@ -34,6 +35,28 @@ func runC16(r *Run) {
 	r.Alias("$side", "ne($head.Previous(),$front.Identifier()) & ne(iter,len(a0))")
 	r.Alias("$blk", "a0[iter:][(iter+1)].AccountBlocks[(iter+1)]")
 	r.Alias("$det", "a0[iter:][(iter+1)]")
+
+	return ic
+}
+
+// applyLoopRules: every delivered block and momentum is verified as delivered, in order, and what is
+// inserted is exactly the supervisor's verified transaction (shared by C16 and C02).
+func applyLoopRules(r *Run, ic string) {
+	r.Guards([]row{
+		{F: ic, C: "ne(nil,recv.supervisor.ApplyBlock($blk)#1) @ eq(nil,recv.chain.GetPatch($blk.Address,$blk.Identifier())) & ne(4,$blk.BlockType) & ne(iter,len(a0))", Pre: []string{".ForceAddAccountBlockTransaction"}, Why: "only verified blocks enter the pool"},
+		{F: ic, C: "ne(nil,recv.supervisor.ApplyMomentum($det)#1) @ ne(iter,len(a0))", Pre: []string{".AddMomentumTransaction"}, Why: "only verified momentums are inserted"},
+		{F: ic, C: "ne(nil,recv.chain.AddMomentumTransaction($ins,recv.supervisor.ApplyMomentum($det)#0)) @ ne(iter,len(a0))", Why: "a failed insertion stops the batch"},
+	})
+	r.GuardLike(ic, "ne(nil,recv.chain.ForceAddAccountBlockTransaction($ins,recv.supervisor.ApplyBlock($blk)#0))", "a failed pool insertion stops the batch")
+	r.Has(ic, "recv.chain.ForceAddAccountBlockTransaction($ins,recv.supervisor.ApplyBlock($blk)#0)", "what enters the pool is the supervisor's verified transaction of that very block, force-added (the momentum's producer already chose it: the node's own fork preference must not veto a confirmed block)")
+	r.Has(ic, "recv.chain.AddMomentumTransaction($ins,recv.supervisor.ApplyMomentum($det)#0)", "what is inserted is the supervisor's verified transaction of that very momentum")
+	r.Has(ic, "recv.supervisor.ApplyBlock($blk)", "each delivered block is verified as delivered")
+	r.Branch(ic, "ne(nil,recv.chain.GetPatch($blk.Address,$blk.Identifier()))", "a block already in the pool (verified earlier) is not re-applied")
+	r.Order(ic, "vm.(*Supervisor).ApplyMomentum", ".AddMomentumTransaction", "verify before insert")
+}
+
+func runC16(r *Run) {
+	ic := c16Aliases(r)
 
 	// lock before read, released on every exit
 	r.Order(ic, ".AcquireInsert", ".GetFrontierMomentumStore", "the ledger snapshot that decides link, window and length is taken under the insert lock — a stale snapshot would let the checks pass against a chain that has since grown")
@@ -61,18 +84,7 @@ func runC16(r *Run) {
 	r.Has(ic, "recv.chain.RollbackTo($ins,$target.Identifier())", "the rollback goes exactly to the parent the delivered chain links to, under the held lock")
 	r.GuardLike(ic, "ne(nil,recv.chain.RollbackTo($ins,$target.Identifier()))", "a failed rollback refuses the delivery")
 
-	// apply loop
-	r.Guards([]row{
-		{F: ic, C: "ne(nil,recv.supervisor.ApplyBlock($blk)#1) @ eq(nil,recv.chain.GetPatch($blk.Address,$blk.Identifier())) & ne(4,$blk.BlockType) & ne(iter,len(a0))", Pre: []string{".ForceAddAccountBlockTransaction"}, Why: "only verified blocks enter the pool"},
-		{F: ic, C: "ne(nil,recv.supervisor.ApplyMomentum($det)#1) @ ne(iter,len(a0))", Pre: []string{".AddMomentumTransaction"}, Why: "only verified momentums are inserted"},
-		{F: ic, C: "ne(nil,recv.chain.AddMomentumTransaction($ins,recv.supervisor.ApplyMomentum($det)#0)) @ ne(iter,len(a0))", Why: "a failed insertion stops the batch"},
-	})
-	r.GuardLike(ic, "ne(nil,recv.chain.ForceAddAccountBlockTransaction($ins,recv.supervisor.ApplyBlock($blk)#0))", "a failed pool insertion stops the batch")
-	r.Has(ic, "recv.chain.ForceAddAccountBlockTransaction($ins,recv.supervisor.ApplyBlock($blk)#0)", "what enters the pool is the supervisor's verified transaction of that very block, force-added (the momentum's producer already chose it: the node's own fork preference must not veto a confirmed block)")
-	r.Has(ic, "recv.chain.AddMomentumTransaction($ins,recv.supervisor.ApplyMomentum($det)#0)", "what is inserted is the supervisor's verified transaction of that very momentum")
-	r.Has(ic, "recv.supervisor.ApplyBlock($blk)", "each delivered block is verified as delivered")
-	r.Branch(ic, "ne(nil,recv.chain.GetPatch($blk.Address,$blk.Identifier()))", "a block already in the pool (verified earlier) is not re-applied")
-	r.Order(ic, "vm.(*Supervisor).ApplyMomentum", ".AddMomentumTransaction", "verify before insert")
+	applyLoopRules(r, ic)
 	r.Returns(ic, []string{
 		"iter, $st.GetMomentumByHeight(a0[iter].Momentum.Height)#1", "0, nil", "0, $st.GetFrontierMomentum()#1", "0, $st.GetMomentumByHeight(($head.Height-1))#1",
 		"0, errors.Errorf(\"can't link momentums to insert. First momentum Prev is %v but we have no momentum at that height\",list($head.Previous()))",
